@@ -47,15 +47,21 @@ func genStep(addrs, threads int) func(t *rapid.T) Step { return genStepN(addrs, 
 // dial function may hand back a connection it closed itself.
 func genStepK(addrs, threads, imax int, kinds []string, dials []int) func(t *rapid.T) Step {
 	base := genPlain(addrs, threads, imax)
+	xi := func(t *rapid.T) int {
+		if imax > 0 && rapid.Bool().Draw(t, "wide") {
+			return rapid.IntRange(0, imax).Draw(t, "i")
+		}
+		return rapid.IntRange(0, 7).Draw(t, "i")
+	}
 	return func(t *rapid.T) Step {
 		k := rapid.SampledFrom(kinds).Draw(t, "k")
 		switch k {
 		case "xclose":
-			return Step{K: k, I: rapid.IntRange(0, 7).Draw(t, "i"), W: rapid.SampledFrom([]int{0, 0, 0, 1, 1, 2}).Draw(t, "w")}
+			return Step{K: k, I: xi(t), W: rapid.SampledFrom([]int{0, 0, 0, 1, 1, 2}).Draw(t, "w")}
 		case "xcon":
-			return Step{K: k, I: rapid.IntRange(0, 7).Draw(t, "i"), M: rapid.IntRange(0, 2).Draw(t, "m")}
+			return Step{K: k, I: xi(t), M: rapid.IntRange(0, 2).Draw(t, "m")}
 		case "xreset", "xdrop":
-			return Step{K: k, I: rapid.IntRange(0, 7).Draw(t, "i")}
+			return Step{K: k, I: xi(t)}
 		case "tick":
 			return Step{K: k, Dur: rapid.IntRange(0, 3).Draw(t, "dur")}
 		}
